@@ -346,15 +346,19 @@ fn failed_rollback_not_fenced() -> bool {
     let live3 = b.fetch_document(3).is_some();
     drop(b);
     set_append_only(&wal, false);
-    if r2.is_ok() || len1 == len0 || !r3.is_ok() {
+    if r2.is_ok() || len1 == len0 {
         println!("  (faults did not produce the two-fault state: nothing to decide)");
         return false;
     }
+    if let Err(e) = &r3 {
+        println!("  insert 3 refused (writer fenced after the failed rollback): {}", format!("{e:#}").chars().take(120).collect::<String>());
+    }
+    // every acknowledged write (doc 1, and doc 3 iff its insert returned Ok) must survive a strict restart
     match HnswBackend::recover(2, DistanceMetric::Euclidean, dir.path(), 100, FsyncPolicy::Always, 0, 0, MetricsCollector::new()) {
         Ok(r) => {
             let ids: Vec<u64> = (0..10u64).filter(|i| r.fetch_document(*i).is_some()).collect();
             println!("  strict recovery succeeded: ids={:?} (live before the restart: doc 3 present={})", ids, live3);
-            !ids.contains(&3) || !ids.contains(&1)
+            !ids.contains(&1) || (r3.is_ok() && !ids.contains(&3)) || ids.contains(&2)
         }
         Err(e) => { println!("  STRICT RECOVERY FAILED after an acknowledged write: {e:#}"); true }
     }
@@ -520,6 +524,136 @@ fn c12_cycle() -> bool {
     hang1 || hang2
 }
 
+// ---- F-C10-a (C10): a tenant's search hit count depends on ANOTHER tenant's documents (real kyrodb_server over gRPC, auth enabled)
+//   the k-NN search is global (search_k = k * oversampling(filter, namespace); the tenant is not part of it) and the tenant check is a
+//   post-filter in build_search_response: tenant A owns a matching document, tenant B inserts nearer ones, A's Search(k=1) comes back empty.
+//   unit handler_isolation, obligation KyroDBServiceImpl::build_search_response_c10/ensures#1
+struct KillOnDrop(std::process::Child);
+impl Drop for KillOnDrop {
+    fn drop(&mut self) {
+        let _ = self.0.kill();
+        let _ = self.0.wait();
+    }
+}
+fn c10_repo() -> String { std::env::var("VERIF_REPO").unwrap_or_else(|_| "/repo".to_string()) }
+/// build (offline, once per repo tree; cargo decides what is stale) and return the path of the real server binary
+fn c10_server_binary() -> std::path::PathBuf {
+    if let Ok(p) = std::env::var("VERIF_SERVER_BIN") { return p.into(); }
+    let repo = c10_repo();
+    let target = format!("/verif/out/server-target{}", repo.replace('/', "_"));
+    println!("  building kyrodb_server from {repo} into {target} (offline; the first build takes minutes)");
+    let out = std::process::Command::new("cargo")
+        .args(["build", "--offline", "-q", "-p", "kyrodb-engine", "--bin", "kyrodb_server"])
+        .current_dir(&repo)
+        .env("CARGO_NET_OFFLINE", "true")
+        .env("CARGO_TARGET_DIR", &target)
+        .output()
+        .expect("cannot run cargo");
+    if !out.status.success() {
+        let err = String::from_utf8_lossy(&out.stderr);
+        let tail: Vec<&str> = err.lines().rev().take(30).collect();
+        for l in tail.iter().rev() { eprintln!("  | {l}"); }
+        panic!("building kyrodb_server failed");
+    }
+    std::path::PathBuf::from(target).join("debug").join("kyrodb_server")
+}
+fn c10_port() -> u16 { std::net::TcpListener::bind("127.0.0.1:0").expect("bind").local_addr().unwrap().port() }
+fn c10_keyed<T>(key: &str, body: T) -> tonic::Request<T> {
+    let mut r = tonic::Request::new(body);
+    r.metadata_mut().insert("x-api-key", key.parse().unwrap());
+    r
+}
+fn c10_vec(x: f32, y: f32) -> Vec<f32> {
+    let mut v = vec![0.0f32; 8];
+    v[0] = x;
+    v[1] = y;
+    v
+}
+fn search_hits_depend_on_other_tenant() -> bool {
+    use kyrodb_engine::proto::kyro_db_service_client::KyroDbServiceClient;
+    use kyrodb_engine::proto::{InsertRequest, QueryRequest, SearchRequest};
+    use std::time::{Duration, Instant};
+    const KEY_A: &str = "kyro_tenant_a_aaaaaaaaaaaaaaaaaaaaaaaaaaaaaaaa";
+    const KEY_B: &str = "kyro_tenant_b_bbbbbbbbbbbbbbbbbbbbbbbbbbbbbbbb";
+    let bin = c10_server_binary();
+    let tmp = tempfile::tempdir().unwrap();
+    let data_dir = tmp.path().join("data");
+    std::fs::create_dir_all(&data_dir).unwrap();
+    let keys_path = tmp.path().join("api_keys.yaml");
+    let mut keys = String::from("api_keys:\n");
+    for (k, t) in [(KEY_A, "tenant_a"), (KEY_B, "tenant_b")] {
+        keys += &format!("  - key: {k}\n    tenant_id: {t}\n    tenant_name: {t}\n    max_qps: 100000\n    max_vectors: 10000\n    enabled: true\n    created_at: \"2025-01-01T00:00:00Z\"\n");
+    }
+    std::fs::write(&keys_path, keys).unwrap();
+    let (port, http_port) = (c10_port(), c10_port());
+    let log = std::fs::File::create(tmp.path().join("server.log")).unwrap();
+    let child = std::process::Command::new(&bin)
+        .env("KYRODB_DATA_DIR", &data_dir)
+        .env("KYRODB_PORT", port.to_string())
+        .env("KYRODB__SERVER__HTTP_PORT", http_port.to_string())
+        .env("KYRODB__AUTH__ENABLED", "true")
+        .env("KYRODB__AUTH__API_KEYS_FILE", &keys_path)
+        .env("KYRODB__HNSW__DIMENSION", "8")
+        .env("KYRODB__HNSW__MAX_ELEMENTS", "1000")
+        .stdout(std::process::Stdio::null())
+        .stderr(log)
+        .spawn()
+        .unwrap_or_else(|e| panic!("cannot spawn {}: {e}", bin.display()));
+    let mut server = KillOnDrop(child);      // killed on every way out of this function, panics included
+
+    let rt = tokio::runtime::Builder::new_multi_thread().worker_threads(2).enable_all().build().unwrap();
+    let endpoint = format!("http://127.0.0.1:{port}");
+    let outcome = rt.block_on(async {
+        let deadline = Instant::now() + Duration::from_secs(60);
+        let mut client = loop {
+            match KyroDbServiceClient::connect(endpoint.clone()).await {
+                Ok(c) => break c,
+                Err(e) => {
+                    if let Ok(Some(st)) = server.0.try_wait() { panic!("kyrodb_server exited early: {st}"); }
+                    assert!(Instant::now() < deadline, "server did not come up: {e}");
+                    tokio::time::sleep(Duration::from_millis(100)).await;
+                }
+            }
+        };
+        macro_rules! insert { ($key:expr, $id:expr, $v:expr) => {{
+            let r = client.insert(c10_keyed($key, InsertRequest { doc_id: $id, embedding: $v, metadata: HashMap::new(), namespace: String::new() })).await.expect("insert rpc");
+            assert!(r.get_ref().success, "insert failed: {}", r.get_ref().error);
+        }}; }
+        macro_rules! search { ($key:expr, $q:expr, $filter:expr) => {{
+            let r = client.search(c10_keyed($key, SearchRequest { query_embedding: $q, k: 1, min_score: 0.0, namespace: String::new(), include_embeddings: false,
+                ef_search: 0, filter: $filter, metadata_filters: HashMap::new() })).await.expect("search rpc");
+            let r = r.into_inner();
+            (r.results.iter().map(|h| h.doc_id).collect::<Vec<u64>>(), r.total_found)
+        }}; }
+        // 1. tenant A stores one document near q = e0 and finds it
+        insert!(KEY_A, 1, c10_vec(1.0, 0.3));
+        let (hits1, total1) = search!(KEY_A, c10_vec(1.0, 0.0), None);
+        println!("  A: Insert(1, [1,0.3,..]); Search([1,0,..], k=1) -> hits {hits1:?} total_found {total1}");
+        // 2. tenant B stores 16 nearer documents (colliding local ids): they take every place of the global top search_k of an unfiltered k=1 search
+        for i in 1..=16u64 { insert!(KEY_B, i, c10_vec(1.0, 0.001 * i as f32)); }
+        println!("  B: Insert(1..=16, [1, 0.001*i, ..])   (all nearer to e0 than A's document)");
+        // 3. tenant A searches again with a fresh query vector (no cache can answer); then once more under a different cache scope with a filter that
+        //    selects A's document (informational: a filter raises the oversampling factor, so this one may still reach A's document)
+        let (hits2, total2) = search!(KEY_A, c10_vec(1.0, 0.0005), None);
+        println!("  A: Search([1,0.0005,..], k=1) -> hits {hits2:?} total_found {total2}");
+        let not_x = MetadataFilter { filter_type: Some(FilterType::NotFilter(Box::new(kyrodb_engine::proto::NotFilter {
+            filter: Some(Box::new(MetadataFilter { filter_type: Some(FilterType::Exact(ExactMatch { key: "kind".into(), value: "x".into() })) })) }))) };
+        let (hits3, total3) = search!(KEY_A, c10_vec(1.0, 0.0007), Some(not_x));
+        println!("  A: Search([1,0.0007,..], k=1, filter NOT(kind=x)) -> hits {hits3:?} total_found {total3}");
+        // A's document is still there and matches both requests
+        let own = client.query(c10_keyed(KEY_A, QueryRequest { doc_id: 1, include_embedding: false, namespace: String::new() })).await.expect("query rpc").get_ref().found;
+        println!("  A: Query(1) -> found {own}");
+        let warranted = if own { 1 } else { 0 };     // min(k, number of A's own matching documents)
+        (hits1.len(), hits2.len(), hits3.len(), warranted)
+    });
+    drop(rt);
+    let _ = server.0.kill();
+    let _ = server.0.wait();
+    let (h1, h2, h3, warranted) = outcome;
+    println!("  A owns {warranted} matching document(s), k=1: hits before B's inserts {h1}, after {h2} (no filter) / {h3} (filter)");
+    h1 == 1 && (h2 < warranted || h3 < warranted)
+}
+
 fn main() {
     let which = std::env::args().nth(1).unwrap_or_else(|| "all".to_string());
     if which == "F-C01-a-child" {
@@ -550,6 +684,7 @@ fn main() {
         ("F-C04-a", Box::new(drain_resurrects)),
         ("F-C07-a", Box::new(query_cache_key_collision)),
         ("F-C07-b", Box::new(similarity_ignores_metric)),
+        ("F-C10-a", Box::new(search_hits_depend_on_other_tenant)),
     ];
     let mut any = false;
     let mut ran = 0;
